@@ -108,6 +108,10 @@ class zmesh(object):
         return f'z{self.tolist()}'
 
 
+class mesh(zmesh):
+    """same Z_p vector under the class NAME the Runge-Kutta sweepers dispatch on"""
+
+
 class zimex(object):
     """right-hand side with implicit and explicit part"""
 
@@ -180,6 +184,22 @@ class ZpLinear(Problem):
 
     def u_exact(self, t):
         return zmesh([1] * self.n)
+
+
+class ZpLinearRK(ZpLinear):
+    """data type named `mesh` (RungeKutta.get_full_f dispatches on type(f).__name__)"""
+
+    dtype_u = mesh
+    dtype_f = mesh
+
+    def _apply(self, Mx, u):
+        return mesh([sum(int(Mx[i][j]) * int(u.v[j]) for j in range(self.n)) % P for i in range(self.n)])
+
+    def solve_system(self, rhs, factor, u0, t):
+        return mesh(super().solve_system(rhs, factor, u0, t))
+
+    def u_exact(self, t):
+        return mesh([1] * self.n)
 
 
 class ZpIMEX(ZpLinear):
